@@ -119,6 +119,7 @@ struct Out {
     max_len: usize,
     duplicate_visits: u64,
     slice_ops: u64,
+    foreign_handle_ops: u64,
     conversions: u64,
 }
 
@@ -164,9 +165,36 @@ fn execute(seed: u64, tier: Tier) -> (crate::kernel::run::RunOutcome<Out>, Vec<&
         sys::monitor(|| check_tour(&tour, &model, "new tour", &mut o.issues));
         let n_tour_ops = sys::monitor(|| p.usize(1, n_ops));
         for _ in 0..n_tour_ops {
-            let op = sys::monitor(|| p.weighted(&[5, 3, 3, 2, 2, 1]));
+            let op = sys::monitor(|| p.weighted(&[5, 3, 3, 2, 2, 1, 1]));
             let what;
             match op {
+                6 => {
+                    // a job handle which is not a job of the plan: the sub-job of a multi-task job wrapped as a single job.
+                    // Whether or not its parent is in the tour, the tour does not hold *this* job: queries say so, removal
+                    // changes nothing
+                    let multis: Vec<&Job> = jobs.iter().filter(|j| matches!(j, Job::Multi(_))).collect();
+                    if multis.is_empty() {
+                        continue;
+                    }
+                    let parent = multis[sys::monitor(|| p.usize(0, multis.len() - 1))];
+                    let sub = match parent {
+                        Job::Multi(m) => m.jobs[sys::monitor(|| p.usize(0, m.jobs.len() - 1))].clone(),
+                        Job::Single(s) => s.clone(),
+                    };
+                    let handle = Job::Single(sub);
+                    let (idx, idx_last, has, n_acts) = (tour.index(&handle), tour.index_last(&handle), tour.has_job(&handle), tour.job_activities(&handle).count());
+                    let removed = if sys::monitor(|| p.chance(0.6)) { Some(tour.remove(&handle)) } else { None };
+                    sys::monitor(|| {
+                        o.foreign_handle_ops += 1;
+                        if idx.is_some() || idx_last.is_some() || has || n_acts != 0 {
+                            o.issues.push(("foreign-handle".into(), format!("a job which is not in the tour (sub-job of a multi-task job wrapped as a single job) is found: index={idx:?} index_last={idx_last:?} has_job={has} activities={n_acts}")));
+                        }
+                        if removed == Some(true) {
+                            o.issues.push(("remove-result".into(), "remove returned true for a job which is not in the tour (sub-job handle)".to_string()));
+                        }
+                    });
+                    what = "foreign-handle";
+                }
                 0 | 1 => {
                     // insert a whole job (all its singles) at legal positions: never before the departure / after the arrival
                     let job = &jobs[sys::monitor(|| p.usize(0, jobs.len() - 1))];
@@ -499,6 +527,7 @@ fn run(seed: u64, tier: Tier) -> CaseRecord {
             rec.count("copies_checked", o.copies_checked);
             rec.count("ops.duplicate_visits", o.duplicate_visits);
             rec.count("ops.on_registry_slices", o.slice_ops);
+            rec.count("ops.foreign_job_handles", o.foreign_handle_ops);
             rec.count("ops.context_to_solution", o.conversions);
             rec.count("tour_length_max_sum", o.max_len as u64);
             for (rule, msg) in o.issues {
